@@ -636,6 +636,10 @@ impl Session {
             min(req.mtu, MAX_MTU)
         };
 
+        // `req.mtu` is peer-controlled: never go below the minimum ATT MTU,
+        // or else removing the GATT header below would underflow
+        let mtu = mtu.clamp(MIN_MTU, MAX_MTU);
+
         // Remove the header as we need to report back the payload MTU
         // and we'll use the payload MTU anyway for all operations
         let mtu = mtu - GATT_HEADER_SIZE as u16;
@@ -643,6 +647,12 @@ impl Session {
         // Make sure we are using a window size that would allow us to receive at least one full BTP SDU
         // TODO: Revisit the mtu and window_size computations
         let window_size = min(req.window_size, Self::initial_window_size(mtu));
+
+        if window_size == 0 {
+            // A zero window does not even have room for our Handshake Response
+            warn!("RX data integrity failure: Handshake Request with a window size of 0");
+            Err(ErrorCode::InvalidData)?;
+        }
 
         debug!("\n>>RCV (BTP IO) {} [{}]\n      HANDSHAKE REQ {:?}\nSelected version: {}, MTU: {}, window size: {}", address, hdr, req, version, mtu, window_size);
 
@@ -662,6 +672,16 @@ impl Session {
         RecvWindow::check_handshake_integrity(&hdr)?;
 
         let resp = HandshakeResp::from(payload.iter().copied())?;
+
+        if resp.window_size == 0
+            || resp.mtu < MIN_MTU - GATT_HEADER_SIZE as u16
+            || resp.mtu > MAX_MTU - GATT_HEADER_SIZE as u16
+        {
+            // Peer-controlled: a zero window or a segment size that cannot even
+            // hold a BTP header would underflow the window / segment arithmetic
+            warn!("RX data integrity failure: Handshake Response with an invalid window size or segment size");
+            Err(ErrorCode::InvalidData)?;
+        }
 
         debug!("\n>>RCV (BTP IO) {} [{}]\n      HANDSHAKE RESP {:?}\nSelected version: {}, MTU: {}, window size: {}", address, hdr, resp, resp.version, resp.mtu, resp.window_size);
 
